@@ -615,6 +615,64 @@ example :
     r.2 = .ok [['q']] ∧ r.1.getValue "u" = some (.scalar ['q']) ∧ r.1.popCtx.getValue "u" = none := by
   refine ⟨rfl, rfl, rfl⟩
 
+/-! ## Field splitting uses the IFS in force after the word's expansions -/
+
+/-- ★ XCU 2.6: all parameter expansions of a word happen first, field splitting afterwards — the
+    separators are those of the variable state the initial expansion LEFT (`env'`), not of the
+    state it started from. -/
+theorem split_uses_ifs_after_expansion (env env' : Env) (w : Word) (ph : Phrase)
+    (h : expandWord env true w = (env', .ok ph)) :
+    expandWordMultiple env w
+      = (env', .ok ((ph.toFields.flatMap (splitInto env'.ifs)).map removeQuotesAndStrip)) := by
+  simp [expandWordMultiple, h]
+
+/-- ★ … which shows when the word itself assigns IFS: with IFS unset and `x` a scalar, the word
+    `${IFS=:}$x` is split at colons — the separator assigned while the word was being expanded —
+    and not at the blanks of the default IFS that was in force before (`unset IFS; x='a:b c'` gives
+    the three fields `''`, `a`, `b c`).  For every value of `x` and every such environment. -/
+theorem ifs_assigned_in_word_is_used (env : Env) (s : List Char)
+    (hifs : env.getVar "IFS" = none) (hx : env.getValue "x" = some (.scalar s)) :
+    (expandWordMultiple env
+        (.cons (.unq (.param (.var "IFS") (.switch .unset .assign (.cons (.unq (.lit ':')) .nil))))
+          (.cons (.unq (.param (.var "x") .none)) .nil))).2
+      = .ok ((splitInto (Ifs.new [':']) (toField [':'] ++ toField s)).map removeQuotesAndStrip) := by
+  have hv : env.getValue "IFS" = none := by simp [Env.getValue, hifs]
+  have hl : lookupCtxs env.ctxs "IFS" = none := by
+    unfold Env.getVar at hifs
+    cases hc : lookupCtxs env.ctxs "IFS" with
+    | none => rfl
+    | some v => simp [hc] at hifs
+  -- the environment after the assignment
+  let env2 : Env := { env with vars := setVar env.vars "IFS" { value := some (.scalar [':']), readOnly := false } }
+  have hassign : env.assign "IFS" [':'] = some env2 := by simp [Env.assign, hifs, env2]
+  have hx2 : env2.getValue "x" = some (.scalar s) := by
+    have hne : ("x" : String) ≠ "IFS" := by decide
+    have : env2.getVar "x" = env.getVar "x" := by
+      simp [Env.getVar, env2, lookup_setVar_ne _ _ _ _ hne]
+    simpa [Env.getValue, this] using hx
+  have hifs2 : env2.ifs = Ifs.new [':'] := by
+    simp [Env.ifs, Env.getScalar, Env.getValue, Env.getVar, env2, hl, lookup_setVar]
+  have hrq : removeQuotesAndStrip [softenChar { value := ':', origin := .literal, isQuoted := false, isQuoting := false }]
+      = [':'] := by
+    simp [removeQuotesAndStrip, skipQuotes, strip, softenChar]
+  have hexp : expandWord env true
+        (.cons (.unq (.param (.var "IFS") (.switch .unset .assign (.cons (.unq (.lit ':')) .nil))))
+          (.cons (.unq (.param (.var "x") .none)) .nil))
+      = (env2, .ok (.field (toField [':'] ++ toField s))) := by
+    simp [expandWord, expandWordUnit, expandTextUnit, expandParam, resolve, hv, Vacancy.of,
+      ValueCondition.with_, switchDecision, expandWordGo, Phrase.zeroFields, Phrase.append,
+      reattribute, Phrase.mapChars, Phrase.ifsJoin, hrq, hassign, hx2, finishParam, intoPhrase]
+  rw [split_uses_ifs_after_expansion _ _ _ _ hexp, hifs2]
+  simp [Phrase.toFields]
+
+example :
+    (expandWordMultiple
+      { vars := [("x", { value := some (.scalar ['a', ':', 'b', ' ', 'c']), readOnly := false })],
+        pos := [], nounset := false, exitStatus := 0, arg0 := [] }
+      (.cons (.unq (.param (.var "IFS") (.switch .unset .assign (.cons (.unq (.lit ':')) .nil))))
+        (.cons (.unq (.param (.var "x") .none)) .nil))).2
+    = .ok [[], ['a'], ['b', ' ', 'c']] := by rfl
+
 /-! ## `nounset` exactly where POSIX says -/
 
 /-- which parameters can be unset at all: a variable without value, a positional parameter beyond
